@@ -221,6 +221,8 @@ Definition C11_schema_statement : Prop :=
   (forall P nm fl k, structs_of (SDec P (BFStruct nm fl) k) = [gcstruct_of (dec_cmt P) (dec_opc P) (ibytes nm) (map bcf fl)]) /\
   (forall P nm fl k, messages_of (SDec P (BFMessage nm fl) k) = [gcmessage_of (dec_cmt P) (dec_opc P) (ibytes nm) (map bcm fl)]) /\
   (forall P nm tname uns bits ml k, enums_of (SDec P (BFEnum nm tname uns bits ml) k) = [gcenum_of (dec_cmt P) (ibytes nm) (ibytes tname) uns (map bce ml)]) /\
+  (forall P nm bl k, unions_of (SDec P (BFUnion nm bl) k) = [gcunion_of (dec_cmt P) (dec_opc P) (ibytes nm) (map bcub bl)]) /\
+  (forall cmt oc nm bl, gcunion_of cmt oc nm bl = {| un_name := nm; un_comment := cmt; un_fields := un_fields (cunion_of nm bl); un_opcode := oc |}) /\
   (forall cmt oc nm fl, gcstruct_of cmt oc nm fl = {| s_name := nm; s_comment := cmt; s_fields := s_fields (cstruct_of nm fl); s_opcode := oc; s_readonly := false |}) /\
   (forall cmt oc nm fl, gcmessage_of cmt oc nm fl = {| m_name := nm; m_comment := cmt; m_fields := m_fields (cmessage_of nm fl); m_opcode := oc |}) /\
   (forall cmt nm tname uns ml, gcenum_of cmt nm tname uns ml = {| e_name := nm; e_comment := cmt; e_opts := e_opts (cenum_of nm tname uns ml); e_simple := tname; e_unsigned := uns |}) /\
